@@ -74,7 +74,12 @@ SER_REWRITES = [
      'replace': 'for i in 0..array.len() { let val = &array[i];'},
     # R1: every `writeln!(..)?` completes one operator record: the per-arm check is injected right behind it
     {'rule': 'R1', 'regex': r'writeln!\(((?:[^()]|\((?:[^()]|\([^()]*\))*\))*)\)\?', 'count': '*',
-     'replace': r'({ writeln!(\1)?; proof { ' + ARM_HINTS + ' assert(%s ==> arm_ok(s0, f.st(), lasts.last(), ops0, n)); //@L round_trip\n } })' % H},
+     'replace': r'({ writeln!(\1)?; proof { assert(%s ==> arm_ok(s0, f.st(), lasts.last(), ops0, n)); //@L round_trip\n } })' % H},
+    # R1: lemma hints for the two operators that carry a vector (inside the block opened by the wrap above)
+    {'rule': 'R1', 'regex': r'\(\{ (writeln!\(f, "\[\{\}\] \{\} d", iter_format_sp\((\w+)\))', 'count': '*',
+     'replace': r'({ proof { lemma_dash(st_open(f.st()), \2@); } \1'},
+    {'rule': 'R1', 'regex': r'\(\{ (writeln!\(f, "\] TJ"\))', 'count': '*',
+     'replace': r'({ proof { if f.st().arr is Some { lemma_tj(f.st().arr->Some_0, array@); } } \1'},
     # R4: unimplemented!() must be unreachable
     {'rule': 'R4', 'regex': r'unimplemented!\(\)', 'count': '*', 'replace': 'verif_panic("unimplemented")'},
 ]
